@@ -216,37 +216,52 @@ theorem C08_arp_depth_le_3 (re gw : Bool) : flagRank re gw ≤ 3 := by
 def mkFrame (st : St) (oif : Iface) (dmac : Mac) (dst : Ip) (pl : Pl) : Frame :=
   { id := st.nextId, srcMac := oif.mac, dstMac := dmac, srcIp := oif.ip, dstIp := dst, ttl := initTtl, pl := pl }
 
-/-- Destination inside the subnet of an enabled NIC and resolved in the ARP cache: the frame goes DIRECTLY to the
-destination's cached MAC, out of the interface the entry names. -/
-theorem C08_host_next_hop_direct (fuel : Nat) (st : St) (n k : Nat) (nd : Node) (dst : Ip) (pl : Pl) (e : ArpEntry)
+/-- Destination inside the subnet of an enabled NIC and resolved in the ARP cache: `resolve_outbound_transmission_details`
+answers with the destination's own cached MAC and the interface the entry names, without sending anything. -/
+theorem C08_host_resolves_direct (fuel : Nat) (st : St) (n k : Nat) (nd : Node) (dst : Ip) (e : ArpEntry)
     (hn : st.node? n = some nd) (_hk : nd.kind = .host)
     (hon : firstEnabledIn nd.ifaces dst 0 = some k) (he : nd.arpGet dst = some e) :
-    sendIcmp (fuel + 2) st n dst pl =
+    resolveDetails (fuel + 2) st n dst = (st, some e.mac, some e.ifc) := by
+  simp only [resolveDetails, hn, hon, arpMac, arpIfc, he]
+
+/-- … so the frame goes DIRECTLY to the destination's cached MAC. -/
+theorem C08_host_next_hop_direct (fuel : Nat) (st : St) (n k : Nat) (nd : Node) (dst : Ip) (pl : Pl) (e : ArpEntry)
+    (hn : st.node? n = some nd) (hk : nd.kind = .host)
+    (hon : firstEnabledIn nd.ifaces dst 0 = some k) (he : nd.arpGet dst = some e) :
+    sendIcmp (fuel + 3) st n dst pl =
       match st.iface? n e.ifc with
       | none => st
-      | some oif => (sendFrame (fuel + 1) { st with nextId := st.nextId + 1 } n e.ifc (mkFrame st oif e.mac dst pl)).1 := by
-  simp only [sendIcmp, hn, hon, arpMac, arpIfc, he, mkFrame]
+      | some oif => (sendFrame (fuel + 2) { st with nextId := st.nextId + 1 } n e.ifc (mkFrame st oif e.mac dst pl)).1 := by
+  simp only [sendIcmp, C08_host_resolves_direct fuel st n k nd dst e hn hk hon he, mkFrame]
   rfl
 
-/-- Destination outside every enabled NIC's subnet, gateway configured and resolved: the frame keeps the destination
-IP address but is sent to the GATEWAY's cached MAC. -/
+/-- Destination outside every enabled NIC's subnet, gateway configured and resolved: the answer is the GATEWAY's cached
+MAC (and the interface of that entry). -/
+theorem C08_host_resolves_gateway (fuel : Nat) (st : St) (n : Nat) (nd : Node) (dst g : Ip) (e : ArpEntry)
+    (hn : st.node? n = some nd) (hk : nd.kind = .host)
+    (hoff : firstEnabledIn nd.ifaces dst 0 = none) (hg : nd.gateway = some g) (he : nd.arpGet g = some e)
+    (hen : nd.ifaces.any (·.enabled) = true) :
+    resolveDetails (fuel + 2) st n dst = (st, some e.mac, some e.ifc) := by
+  simp only [resolveDetails, hn, hoff, hk, hg, arpMac, arpIfc, he, hen, if_true]
+
+/-- … so the frame keeps the destination IP address but is sent to the gateway's MAC. -/
 theorem C08_host_next_hop_gateway (fuel : Nat) (st : St) (n : Nat) (nd : Node) (dst g : Ip) (pl : Pl) (e : ArpEntry)
     (hn : st.node? n = some nd) (hk : nd.kind = .host)
     (hoff : firstEnabledIn nd.ifaces dst 0 = none) (hg : nd.gateway = some g) (he : nd.arpGet g = some e)
     (hen : nd.ifaces.any (·.enabled) = true) :
-    sendIcmp (fuel + 2) st n dst pl =
+    sendIcmp (fuel + 3) st n dst pl =
       match st.iface? n e.ifc with
       | none => st
-      | some oif => (sendFrame (fuel + 1) { st with nextId := st.nextId + 1 } n e.ifc (mkFrame st oif e.mac dst pl)).1 := by
-  simp only [sendIcmp, hn, hoff, hk, hg, arpMac, arpIfc, he, hen, if_true, mkFrame]
+      | some oif => (sendFrame (fuel + 2) { st with nextId := st.nextId + 1 } n e.ifc (mkFrame st oif e.mac dst pl)).1 := by
+  simp only [sendIcmp, C08_host_resolves_gateway fuel st n nd dst g e hn hk hoff hg he hen, mkFrame]
   rfl
 
 /-- Destination outside every enabled NIC's subnet and no default gateway: nothing is transmitted and nothing changes. -/
 theorem C08_host_next_hop_none (fuel : Nat) (st : St) (n : Nat) (nd : Node) (dst : Ip) (pl : Pl)
     (hn : st.node? n = some nd) (hk : nd.kind = .host)
     (hoff : firstEnabledIn nd.ifaces dst 0 = none) (hg : nd.gateway = none) :
-    sendIcmp (fuel + 1) st n dst pl = st := by
-  simp only [sendIcmp, hn, hoff, hk, hg]
+    sendIcmp (fuel + 2) st n dst pl = st := by
+  simp only [sendIcmp, resolveDetails, hn, hoff, hk, hg]
 
 /-- and `ping` does not even try: without a gateway an off-link destination resolves no outbound interface. -/
 theorem C08_host_no_route_no_interface (fuel : Nat) (st : St) (n : Nat) (nd : Node) (dst : Ip)
